@@ -33,6 +33,8 @@ import (
 
 const blockSize = 4096
 
+var processStart = time.Now()
+
 // seen holds the hashes of every case of the small (table-built) families, for the honest
 // distinct count; the big index-generated sweeps are injective by construction and are only
 // looked up in it.
